@@ -147,22 +147,30 @@ pub fn quote_decode_into(
 	// there's at most one non zero-sized field, so only one of these `decode_into` calls
 	// should actually do something, and the rest should just be dummy calls that do nothing.
 	let mut decode_fields = Vec::new();
+	let mut guards = Vec::new();
 	let mut sizes = Vec::new();
 	let mut non_zst_field_count = Vec::new();
-	for field in fields {
+	for (index, field) in fields.iter().enumerate() {
 		let field_type = &field.ty;
-		decode_fields.push(quote! {{
-			let dst_: &mut ::core::mem::MaybeUninit<Self> = dst_; // To make sure the type is what we expect.
+		let guard = Ident::new(&format!("__codec_guard_{index}_edqy"), Span::call_site());
+		decode_fields.push(quote! {
+			// If a later field fails to decode (or panics) this field has to be dropped again,
+			// as nobody else knows that it was already initialized.
+			let #guard = {
+				let dst_: &mut ::core::mem::MaybeUninit<Self> = dst_; // To make sure the type is what we expect.
 
-			// Here we cast `&mut MaybeUninit<Self>` into a `&mut MaybeUninit<#field_type>`.
-			//
-			// SAFETY: The struct is marked as `#[repr(transparent)]` so the address of every field will
-			//         be the same as the address of the struct itself.
-			let dst_: &mut ::core::mem::MaybeUninit<#field_type> = unsafe {
-				&mut *dst_.as_mut_ptr().cast::<::core::mem::MaybeUninit<#field_type>>()
+				// Here we cast `&mut MaybeUninit<Self>` into a `&mut MaybeUninit<#field_type>`.
+				//
+				// SAFETY: The struct is marked as `#[repr(transparent)]` so the address of every field will
+				//         be the same as the address of the struct itself.
+				let dst_: &mut ::core::mem::MaybeUninit<#field_type> = unsafe {
+					&mut *dst_.as_mut_ptr().cast::<::core::mem::MaybeUninit<#field_type>>()
+				};
+				<#field_type as #crate_path::Decode>::decode_into(#input, dst_)?;
+				__CodecDropGuardEdqy(dst_.as_mut_ptr())
 			};
-			<#field_type as #crate_path::Decode>::decode_into(#input, dst_)?;
-		}});
+		});
+		guards.push(guard);
 
 		if !sizes.is_empty() {
 			sizes.push(quote! { + });
@@ -181,7 +189,19 @@ pub fn quote_decode_into(
 		::core::assert_eq!(#(#sizes)*, ::core::mem::size_of::<Self>());
 		::core::assert!(#(#non_zst_field_count)* <= 1);
 
+		// Drops an already decoded field unless it is disarmed with `mem::forget`.
+		struct __CodecDropGuardEdqy<T>(*mut T);
+		impl<T> ::core::ops::Drop for __CodecDropGuardEdqy<T> {
+			fn drop(&mut self) {
+				// SAFETY: The guard is only created after the field was successfully initialized.
+				unsafe { ::core::ptr::drop_in_place(self.0) }
+			}
+		}
+
 		#(#decode_fields)*
+
+		// Everything was decoded; the fields now belong to the decoded value.
+		#( ::core::mem::forget(#guards); )*
 
 		// SAFETY: We've successfully called `decode_into` for all of the fields.
 		unsafe { ::core::result::Result::Ok(#crate_path::DecodeFinished::assert_decoding_finished()) }
